@@ -84,7 +84,11 @@ SmallL1 == { Mk([f |-> "ctx", b |-> <<1>>], "uint", 1, <<255>>), Mk([f |-> "anon
              Mk([f |-> "ctx", b |-> <<2>>], "uint", 8, <<255, 255, 255, 255, 255, 255, 255, 255>>), Mk([f |-> "anon", b |-> <<>>], "true", 0, <<>>),
              Mk([f |-> "ctx", b |-> <<3>>], "bytes", 2, <<1, 2, 3>>), Mk([f |-> "anon", b |-> <<>>], "f32", 4, <<0, 0, 128, 63>>),
              Mk([f |-> "ctx", b |-> <<1>>], "bytes", 4, <<>>) }
-Universe == IF Full
+\* strings around the limit of the one-byte length field (255 / 256 / 257 bytes), each with the shortest length field that holds it
+Rep(x, n) == [j \in 1..n |-> x]
+Long == { Mk([f |-> "ctx", b |-> <<1>>], "bytes", 1, Rep(7, 255)), Mk([f |-> "ctx", b |-> <<1>>], "bytes", 2, Rep(7, 256)), Mk([f |-> "anon", b |-> <<>>], "bytes", 2, Rep(9, 257)),
+          Mk([f |-> "anon", b |-> <<>>], "utf8", 1, Rep(97, 255)), Mk([f |-> "ctx", b |-> <<2>>], "utf8", 2, Rep(98, 256)), Mk([f |-> "ctx", b |-> <<2>>], "utf8", 2, Rep(99, 257)) }
+Universe == Long \cup IF Full
             THEN Scalars(Tags) \cup Conts(Tags, Seqs(L1)) \cup Conts({[f |-> "anon", b |-> <<>>]}, {<<i, s>> : i \in Inner, s \in Scalars({[f |-> "ctx", b |-> <<2>>]})})
             ELSE Scalars(Tags) \cup Conts({[f |-> "anon", b |-> <<>>], [f |-> "ctx", b |-> <<1>>]}, Seqs(SmallL1))
                  \cup Conts({[f |-> "anon", b |-> <<>>]}, {<<i, s>> : i \in {c \in Inner : c.k = "struct" /\ Len(c.ch) = 1}, s \in {Mk([f |-> "ctx", b |-> <<2>>], "uint", 1, <<255>>)}})
@@ -100,5 +104,6 @@ Next == phase = 0 /\ phase' = 1 /\ UNCHANGED e
 RoundTrip == LET r == Parse(Bytes(e)) IN r.ok /\ r.e = e
 \* one output line per value: the encoding, and the reference verdict for every mutation
 Spec == Init /\ [][Next]_<<e, phase>>
-Emit == phase = 1 => PrintT(<<"REPLAY", ToJson([bytes |-> Bytes(e), tree |-> e, muts |-> {[b |-> m, ok |-> Parse(m).ok] : m \in Mut(Bytes(e))}])>>)
+\* (the long strings go without mutations: thousands of them would say nothing new)
+Emit == phase = 1 => PrintT(<<"REPLAY", ToJson([bytes |-> Bytes(e), tree |-> e, muts |-> IF Len(Bytes(e)) > 100 THEN {} ELSE {[b |-> m, ok |-> Parse(m).ok] : m \in Mut(Bytes(e))}])>>)
 =============================================================================
